@@ -27,6 +27,8 @@ func seedFromEnv() int64 {
 }
 
 func main() {
+	// go/packages runs "go" from PATH: make that the 1.26.8 toolchain
+	os.Setenv("PATH", "/opt/veriftools/go1.26.8/bin:"+os.Getenv("PATH"))
 	if len(os.Args) < 2 {
 		usage()
 	}
